@@ -134,6 +134,10 @@ pub fn finish(ctx: &Ctx, ev: Evidence) -> i32 {
     let mut known_hits: Vec<J> = vec![];
     let mut printed_known: BTreeMap<String, u64> = BTreeMap::new();
     let replay_dir = verif_root().join("replays").join(&ctx.prop);
+    if ctx.replay.is_none() {
+        // replay files describe the current run only
+        let _ = std::fs::remove_dir_all(&replay_dir);
+    }
     for (sig, rec) in recs.iter() {
         let hit = known.iter().find(|k| k.status == "known" && k.property == ctx.prop && sig_matches(&k.signature, sig));
         if let Some(k) = hit {
